@@ -359,6 +359,9 @@ class CallMixin:
             return UVal(self.ctx.fn("dtype_of", U, U)(o.t))
         if default is not _MISSING:
             return default
+        if o.cls == "extobj" and not name.startswith("__"):
+            # method of an external object (e.g. a tfd distribution): uninterpreted pure function of object and arguments
+            return BoundMethod(o, NativeFn(f"ext.{name}", self.default_abstract("ext", name)))
         raise Unsupported(f"attribute {name} of opaque value {o!r}")
 
     def default_abstract(self, cls, name):
@@ -655,11 +658,12 @@ class CallMixin:
         for k in sorted(kwargs):
             ts.append(self.to_u(kwargs[k]))
         name = "ext_" + path + "".join("_" + k for k in sorted(kwargs))
+        cls = "extobj" if path.split(".")[-1][:1].isupper() else None       # constructor of an external class
         if not ts:
-            return UVal(z3.Const(name + "_0", U))
+            return UVal(z3.Const(name + "_0", U), cls)
         fn = self.ctx.fn(name + f"/{len(ts)}", *([U] * len(ts)), U)
         self.ctx.notes.append(f"uninterpreted external: {path}")
-        return UVal(fn(*ts))
+        return UVal(fn(*ts), cls)
 
     # ------------------------------------------------------------------ builtins
     def call_builtin(self, name, args, kwargs):
